@@ -4,7 +4,12 @@ import "math"
 
 // Rand is the harness PRNG (splitmix64): specified here, so one integer
 // decides everything on every Go release.
-type Rand struct{ s uint64 }
+type Rand struct {
+	s uint64
+	// Large lets genVal draw text/bytea values beyond 4 KiB (row values of the
+	// checks that ask for it; never message parameters)
+	Large bool
+}
 
 // NewRand seeds a generator.
 func NewRand(seed uint64) *Rand { return &Rand{s: seed} }
